@@ -9,7 +9,6 @@ import (
 	"fmt"
 	"io"
 	"sort"
-	"strconv"
 	"strings"
 	"sync"
 	"time"
@@ -73,11 +72,11 @@ func c02Error(v vsx) *conformancev1.Error {
 	return e
 }
 
-func c02Request(stype int64, fullDuplex bool, v vsx) *anypb.Any {
-	data := v.l[0].b
+func c02Request(v vsx) *anypb.Any {
+	kind, fullDuplex, data := v.l[0].i, v.l[1].i != 0, v.l[2].b
 	var defv *vsx
-	if len(v.l[1].l) > 0 {
-		defv = &v.l[1].l[0]
+	if len(v.l[3].l) > 0 {
+		defv = &v.l[3].l[0]
 	}
 	var msg proto.Message
 	unaryDef := func() *conformancev1.UnaryResponseDefinition {
@@ -112,15 +111,19 @@ func c02Request(stype int64, fullDuplex bool, v vsx) *anypb.Any {
 		}
 		return d
 	}
-	switch conformancev1.StreamType(stype) {
-	case conformancev1.StreamType_STREAM_TYPE_UNARY:
+	switch kind {
+	case 0:
 		msg = &conformancev1.UnaryRequest{RequestData: data, ResponseDefinition: unaryDef()}
-	case conformancev1.StreamType_STREAM_TYPE_CLIENT_STREAM:
+	case 1:
 		msg = &conformancev1.ClientStreamRequest{RequestData: data, ResponseDefinition: unaryDef()}
-	case conformancev1.StreamType_STREAM_TYPE_SERVER_STREAM:
+	case 2:
 		msg = &conformancev1.ServerStreamRequest{RequestData: data, ResponseDefinition: streamDef()}
-	default:
+	case 3:
 		msg = &conformancev1.BidiStreamRequest{RequestData: data, ResponseDefinition: streamDef(), FullDuplex: fullDuplex}
+	case 4:
+		msg = &conformancev1.Header{Name: string(data)} // a linked message type that defines no response
+	default:
+		return &anypb.Any{TypeUrl: "type.googleapis.com/verif.NoSuchMessage", Value: data}
 	}
 	a, err := anypb.New(msg)
 	if err != nil {
@@ -138,9 +141,8 @@ func c02Suite(tests vsx) *conformancev1.TestSuite {
 			StreamType:     conformancev1.StreamType(stype),
 			RequestHeaders: c02Headers(t.l[2]),
 		}}
-		full := conformancev1.StreamType(stype) == conformancev1.StreamType_STREAM_TYPE_FULL_DUPLEX_BIDI_STREAM
 		for _, r := range t.l[3].l {
-			tc.Request.RequestMessages = append(tc.Request.RequestMessages, c02Request(stype, full, r))
+			tc.Request.RequestMessages = append(tc.Request.RequestMessages, c02Request(r))
 		}
 		suite.TestCases = append(suite.TestCases, tc)
 	}
@@ -194,41 +196,40 @@ func c02Names(lists ...[]*conformancev1.Header) map[string]bool {
 }
 
 type c02Proj struct {
-	reqs     []*anypb.Any
 	reqNames map[string]bool
 	rspNames map[string]bool
 }
 
-func (p *c02Proj) reqIndex(a *anypb.Any) vsx {
-	for i, r := range p.reqs {
-		if r.TypeUrl == a.TypeUrl && bytes.Equal(r.Value, a.Value) {
-			return vInt(i)
-		}
+// an echoed request message -> (type request-data); type as in the model (0 unary .. 3 bidi, 4 other, 5 unresolvable)
+func c02ReqAny(a *anypb.Any) vsx {
+	m, err := a.UnmarshalNew()
+	if err != nil {
+		return vL(vI(5), vB(a.Value))
 	}
-	// fall back to semantic equality (codecs may re-encode)
-	for i, r := range p.reqs {
-		m1, err1 := r.UnmarshalNew()
-		m2, err2 := a.UnmarshalNew()
-		if err1 == nil && err2 == nil && proto.Equal(m1, m2) {
-			return vInt(i)
-		}
+	switch m := m.(type) {
+	case *conformancev1.UnaryRequest:
+		return vL(vI(0), vB(m.RequestData))
+	case *conformancev1.ClientStreamRequest:
+		return vL(vI(1), vB(m.RequestData))
+	case *conformancev1.ServerStreamRequest:
+		return vL(vI(2), vB(m.RequestData))
+	case *conformancev1.BidiStreamRequest:
+		return vL(vI(3), vB(m.RequestData))
 	}
-	return vInt(-1)
+	return vL(vI(4), vB(a.Value))
 }
 
 func (p *c02Proj) reqInfo(ri *conformancev1.ConformancePayload_RequestInfo) vsx {
-	if ri == nil {
-		return vL()
-	}
-	idx := make([]vsx, len(ri.Requests))
-	for i, r := range ri.Requests {
-		idx[i] = p.reqIndex(r)
+	// a nil request info and an empty one are the same thing to the assertion (getters on nil)
+	idx := make([]vsx, len(ri.GetRequests()))
+	for i, r := range ri.GetRequests() {
+		idx[i] = c02ReqAny(r)
 	}
 	tmo := vL()
-	if ri.TimeoutMs != nil {
+	if ri != nil && ri.TimeoutMs != nil {
 		tmo = vL(vI(*ri.TimeoutMs))
 	}
-	return vL(vL(c02Project(ri.RequestHeaders, p.reqNames), vL(idx...), tmo))
+	return vL(c02Project(ri.GetRequestHeaders(), p.reqNames), vL(idx...), tmo)
 }
 
 func (p *c02Proj) errv(e *conformancev1.Error) vsx {
@@ -270,11 +271,11 @@ func (p *c02Proj) result(r *conformancev1.ClientResponseResult, restrict bool) v
 	for i, pl := range r.Payloads {
 		pls[i] = vL(vB(pl.GetData()), p.reqInfo(pl.GetRequestInfo()))
 	}
-	return vL(hdrs, trls, vL(pls...), p.errv(r.Error), vI(int64(r.NumUnsentRequests)))
+	return vL(hdrs, trls, vL(pls...), p.errv(r.Error))
 }
 
 func c02ProjFor(tc *conformancev1.TestCase, orig *conformancev1.TestCase) *c02Proj {
-	p := &c02Proj{reqs: orig.Request.RequestMessages, reqNames: c02Names(orig.Request.RequestHeaders)}
+	p := &c02Proj{reqNames: c02Names(orig.Request.RequestHeaders)}
 	// response names: whatever the first request's definition declares
 	p.rspNames = map[string]bool{}
 	if len(orig.Request.RequestMessages) > 0 {
@@ -334,7 +335,7 @@ func c02Library(tests vsx, cfgv vsx) (*testCaseLibrary, *conformancev1.TestSuite
 
 // (tests) -> per test (name expected) through parseTestSuites + newTestCaseLibrary with one config case
 func verifC02Expect(args []vsx) vsx {
-	cfg := vL(vL(vI(1), vI(1), vI(1), vI(1), vI(0)))
+	cfg := vL(vL(vI(2), vI(1), vI(1), vI(1), vI(0))) // h2c: the only plain-text version that carries all five stream types
 	lib, suite, _, err := c02Library(args[0], cfg)
 	if err != nil {
 		return vErr("load")
@@ -487,23 +488,46 @@ func verifC02Live(args []vsx) vsx {
 	case <-time.After(30 * time.Second):
 		return vErr("client-did-not-finish")
 	}
-	for _, tc := range allCases {
-		perms = append(perms, permRes{name: tc.Request.TestName, tc: tc})
+	cfgIndex := map[string]int{}
+	for i, c := range args[1].l {
+		cfgIndex[fmt.Sprintf("%d.%d.%d.%d.%v", c.l[0].i, c.l[1].i, c.l[2].i, c.l[3].i, c.l[4].i != 0)] = i
 	}
-	sort.Slice(perms, func(i, j int) bool { return perms[i].name < perms[j].name })
-	results.mu.Lock()
-	defer results.mu.Unlock()
-	out := make([]vsx, 0, len(perms))
-	for _, p := range perms {
-		base := lib.testCaseNames[p.name]
+	testIndex := map[string]int{}
+	for i, tc := range suite.TestCases {
+		testIndex[tc.Request.TestName] = i
+	}
+	baseOf := func(name string) string {
+		base := lib.testCaseNames[name]
 		if base == "" {
 			// gRPC-marked name: strip the marker component
 			for _, m := range []string{grpcImplMarker, grpcClientImplMarker, grpcServerImplMarker} {
-				if unmarked := strings.Replace(p.name, m+"/", "", 1); unmarked != p.name {
+				if unmarked := strings.Replace(name, m+"/", "", 1); unmarked != name {
 					base = lib.testCaseNames[unmarked]
 				}
 			}
 		}
+		return base
+	}
+	cfgOf := func(tc *conformancev1.TestCase) string {
+		return fmt.Sprintf("%d.%d.%d.%d.%v", tc.Request.HttpVersion, tc.Request.Protocol, tc.Request.Codec,
+			tc.Request.Compression, len(tc.Request.ServerTlsCert) > 0)
+	}
+	for _, tc := range allCases {
+		perms = append(perms, permRes{name: tc.Request.TestName, tc: tc})
+	}
+	// the order of the model: config cases as given, then test cases as given
+	sort.SliceStable(perms, func(i, j int) bool {
+		ci, cj := cfgIndex[cfgOf(perms[i].tc)], cfgIndex[cfgOf(perms[j].tc)]
+		if ci != cj {
+			return ci < cj
+		}
+		return testIndex[baseOf(perms[i].name)] < testIndex[baseOf(perms[j].name)]
+	})
+	results.mu.Lock()
+	defer results.mu.Unlock()
+	out := make([]vsx, 0, len(perms))
+	for _, p := range perms {
+		base := baseOf(p.name)
 		o := orig[base]
 		proj := c02ProjFor(p.tc, o)
 		verdict := vS("pass")
@@ -519,9 +543,8 @@ func verifC02Live(args []vsx) vsx {
 			}
 			verdict = vL(vS(kind), vS(firstLines(oc.actualFailure.Error(), 6)))
 		}
-		fb := vL()
 		if msg, ok := results.serverSideband[p.name]; ok {
-			fb = vL(vS(firstLines(msg, 3)))
+			verdict = vL(vS("server-feedback"), verdict, vS(firstLines(msg, 3)))
 		}
 		actual := vL(vS("none"))
 		if r := rec.resps[p.name]; r != nil && r.GetResponse() != nil {
@@ -529,9 +552,13 @@ func verifC02Live(args []vsx) vsx {
 		} else if r != nil && r.GetError() != nil {
 			actual = vL(vS("client-error"), vS(r.GetError().Message))
 		}
-		cfgKey := fmt.Sprintf("%d.%d.%d.%d.%s", p.tc.Request.HttpVersion, p.tc.Request.Protocol, p.tc.Request.Codec,
-			p.tc.Request.Compression, strconv.FormatBool(len(p.tc.Request.ServerTlsCert) > 0))
-		out = append(out, vL(vS(base), vS(cfgKey), proj.result(p.tc.ExpectedResponse, false), verdict, fb, actual))
+		rq := p.tc.Request
+		tls := int64(0)
+		if len(rq.ServerTlsCert) > 0 {
+			tls = 1
+		}
+		cfg := vL(vI(int64(rq.HttpVersion)), vI(int64(rq.Protocol)), vI(int64(rq.Codec)), vI(int64(rq.Compression)), vI(tls))
+		out = append(out, vL(vS(base), cfg, verdict, actual))
 	}
 	return vL(out...)
 }
